@@ -16,7 +16,7 @@ TECHNIQUE = "symbolic execution (zsym, z3) of bounded edit histories over the re
 
 RANGES = dict(gi=(0, 1), a=(0, 8), b=(-2, 4), c=(-1, 3), d=(0, 12))
 RANGES_FINAL_K2 = dict(gi=(0, 1), a=(0, 4), b=(-1, 2), c=(-1, 1), d=(0, 3))   # the rejected call after a prefix step
-K2_STRIDE = 40
+K2_STRIDE = 8
 RANGES_PREFIX = dict(gi=(0, 1), a=(0, 5), b=(-1, 2), c=(-1, 1), d=(0, 3))
 
 
@@ -81,7 +81,7 @@ def keys_for(tier):
     if tier == "thorough":
         pres = [irlib.OPS.index(p) for p in PREFIXES]
         # (seed, prefix, final operation) triples with (seed + prefix index + operation) % K2_STRIDE == 0: every final operation meets
-        # 2 (seed, prefix) pairs; all 4640 triples would take ~28 h on 16 cores
+        # 10 (seed, prefix) pairs
         keys += [("k2", s, p, o) for s in range(irlib.N_SEEDS) for i, p in enumerate(pres) for o in range(irlib.N_OPS) if (s + i + o) % K2_STRIDE == 0]
     return keys
 
